@@ -392,8 +392,8 @@ func ParamCorpus(dir string) []CorpusEntry {
 		"    get: {parameters: [" + p("query", "page", "integer", "int64", true) + ", " + p("query", "f32", "number", "float", false) + ", " + p("query", "f64", "number", "", true) + ", " + p("query", "ok", "boolean", "", false) + ", " + p("query", "at", "string", "date-time", false) + ", " + arr("query", "ids", "integer", "int64") + ", " + arr("query", "ratios", "number", "float") + ", " + arr("query", "names", "string", "") + ", " + p("header", "X-Count", "integer", "", true) + ", " + p("header", "X-Ratio", "number", "float", false) + ", " + p("header", "X-When", "string", "date-time", false) + "], responses: {default: {description: d}}}\n" +
 		"    post: {responses: {default: {description: d}}}\n"
 	return []CorpusEntry{
-		{Name: "param-pathorder", Spec: writeSpec(filepath.Join(dir, "param-pathorder"), "openapi", spec1), Group: "param-matrix"},
-		{Name: "param-types", Spec: writeSpec(filepath.Join(dir, "param-types"), "openapi", spec2), Group: "param-matrix"},
+		{Name: "param-pathorder", Spec: writeSpec(filepath.Join(dir, "param-pathorder"), "openapi", spec1), Group: "param-matrix", Client: true},
+		{Name: "param-types", Spec: writeSpec(filepath.Join(dir, "param-types"), "openapi", spec2), Group: "param-matrix", Client: true},
 	}
 }
 
